@@ -731,6 +731,52 @@ func c17PullRefusedArms(c *fw.Ctx, i int) {
 }
 
 
+// c17PullRefusedArmsOnDemand: the other two refusals of start_relay_pull that store the request all the same (one root
+// cause with refused-arms above: StartPull records url / budget / auto-stop before it asks whether a pull may start).
+// how="auto-stop": pull on demand (auto-stop "immediately") requested while nobody watches is answered "should auto stop
+// pull"; the first consumer then starts it. how="retry-limited": a second start with a new budget after the first budget
+// is spent is answered "relay pull retry limited"; the new budget is used all the same.
+func c17PullRefusedArmsOnDemand(c *fw.Ctx, i int, how string) {
+	e := c17Start(c, i, false, nil)
+	if e == nil {
+		return
+	}
+	defer e.stop()
+	e.desc = "start_relay_pull answered with an error (" + how + ") and acted on later"
+	c.Describe("%s", e.desc)
+	c.Cell("pull/refused-start-then-acted-on/%s", how)
+	c.Eval(1)
+	switch how {
+	case "auto-stop":
+		a := e.apiStart(-1, 0)
+		if a.Ok {
+			c.Count("on_demand_start_accepted", 1)
+		}
+		// (the consumer arrives before lal's next tick looks at the stored request: a tick that finds nobody
+		// watching disarms it again, which is the auto-stop rule at work)
+		time.Sleep(50 * time.Millisecond)
+		x := e.sub()
+		defer e.unsub(x)
+		e.waitAttempts(1, 4*c17Tick+c17Slack)
+	default:
+		e.setScript(c17Refuse(12))
+		x := e.sub()
+		defer e.unsub(x)
+		e.apiStart(0, -1)
+		e.waitAttempts(1, 4*c17Tick+c17Slack)
+		time.Sleep(2*c17Tick + c17Slack)
+		n := len(e.attempts())
+		a := e.apiStart(3, -1)
+		if a.Ok {
+			c.Count("second_start_after_spent_budget_accepted", 1)
+		}
+		e.waitAttempts(n+1, 4*c17Tick+c17Slack)
+	}
+	time.Sleep(300 * time.Millisecond)
+	e.apiStop()
+	e.monitor()
+}
+
 // c17PullRefusedWhileAttached: a second start_relay_pull (other url, retry budget 0, auto-stop
 // "immediately") while an API pull is attached is answered with an error. An error answer reports
 // that nothing happened: the attached pull goes on under its own settings (never auto-stop, here
@@ -1389,6 +1435,8 @@ func init() {
 		cat = append(cat, sc{"inflight-" + h, func(c *fw.Ctx, i int) { c17PullStopInFlight(c, i, h) }})
 	}
 	cat = append(cat, sc{"refused-arms", c17PullRefusedArms})
+	cat = append(cat, sc{"refused-arms-on-demand", func(c *fw.Ctx, i int) { c17PullRefusedArmsOnDemand(c, i, "auto-stop") }})
+	cat = append(cat, sc{"refused-arms-budget", func(c *fw.Ctx, i int) { c17PullRefusedArmsOnDemand(c, i, "retry-limited") }})
 	cat = append(cat, sc{"slow-alone", c17PullSlowAlone})
 	cat = append(cat, sc{"refused-while-attached", c17PullRefusedWhileAttached}, sc{"refused-while-in-flight", c17PullRefusedWhileInFlight})
 	cat = append(cat, sc{"overtaken", func(c *fw.Ctx, i int) { c17PullOvertaken(c, i, false) }}, sc{"overtaken-static", func(c *fw.Ctx, i int) { c17PullOvertaken(c, i, true) }})
